@@ -64,6 +64,20 @@ def leapfrog(c, cls):
     c.eq('negative_step_undoes_the_step_momentum', r3, r)
 
 
+def leapfrog_nonfinite(c, cls, val):
+    """the integrator at a point where the target's log-density is not finite (outside the support, overflow): still exactly half kick / drift / half kick
+    with the given step - the value is reported as it is and judged by the tree (a leapfrog that reacts to it is no longer reversible or volume preserving)"""
+    s = _mk(c, cls); G = s._target.g
+    s._target.logd = lambda x: val
+    x, r = c.avec('x'), c.avec('r'); eps = c.real('eps', nz=True)
+    g = G(x)
+    x1, r1, l1, g1 = s._Leapfrog(x, r, g, eps)
+    rh = r + 0.5 * eps * g
+    c.eq('drift_uses_half_kicked_momentum_and_the_full_step', x1, x + eps * rh)
+    c.eq('second_half_kick_uses_gradient_at_the_new_point', r1, rh + 0.5 * eps * G(x + eps * rh))
+    c.holds('non_finite_log_density_reported_as_it_is', (l1 != l1) if val != val else (l1 == val), note=str(l1))
+
+
 def tree_base(c, cls, v):
     s = _mk(c, cls); F, G = s._target.f, s._target.g
     x, r = c.avec('x'), c.avec('r'); eps = c.real('eps', pos=True)
@@ -321,6 +335,8 @@ def jobs(tier):
     X = 'cuqi.experimental.mcmc._hmc:NUTS'; L = 'cuqi.sampler._hmc:NUTS'
     for tag, cls, q in (('experimental', XNUTS, X), ('legacy', LNUTS, L)):
         J.append(Job(f'{tag}.NUTS._Leapfrog:structure_and_reversibility', lambda c, cls=cls: leapfrog(c, cls), 'Pinf', [f'{q}._Leapfrog', f'{q}._nuts_target']))
+        for val in (float('-inf'), float('nan'), float('inf')):
+            J.append(Job(f'{tag}.NUTS._Leapfrog:non_finite_log_density={val}', lambda c, cls=cls, val=val: leapfrog_nonfinite(c, cls, val), 'Pinf', [f'{q}._Leapfrog', f'{q}._nuts_target']))
         for v in (-1, 1):
             J.append(Job(f'{tag}.NUTS._BuildTree:base_case:v={v}', lambda c, cls=cls, v=v: tree_base(c, cls, v), 'Pinf', [f'{q}._BuildTree', f'{q}._Leapfrog', f'{q}._Kfun'], maxpaths=256))
             for val in (float('nan'), float('-inf')):
